@@ -108,9 +108,11 @@ func Variants(msaIn io.Reader, stdin bool, refID string, annoIn io.Reader, annoS
 			}
 			firstmissing = true
 		case err := <-cErr:
+			// (an empty pipe arrives here, as an "empty fasta file" error from the reader)
 			return err
-		case <-cMSADone:
-			return errors.New("is the pipe to --msa empty?") // TO DO - does this work/is this necessary?
+			// NB the reader's done signal must not be one of the cases here: when the alignment is small enough to fit
+			// in cMSA's buffer the reader has already finished, so the first record and the done signal are both ready
+			// and select would pick between them at random
 		}
 	}
 
